@@ -9,6 +9,15 @@
     exhaustive over all graphs of all shapes <= 2x3/3x2 (+1x4,4x1) and a seeded sample of the 3x3 graphs
     (thorough: all 4096), seeded random graphs up to 15x15 incl. oblong and 1xn / nx1.
 
+    Histories (one process each): the SAME maze object queried three times with the views in forward / reversed /
+    scrambled order, every array or list it returned overwritten in place in between, the maze hashed / compared /
+    rendered / solved in between, then a freshly built equal maze; shapes in decreasing, scrambled (same row count then
+    wider, same column count then taller), A-B-A and increasing order; the lattice helpers for sizes in scrambled order
+    with their results overwritten.  Every pass is a full record judged by the same oracle (a result that depends on
+    what was asked before, or that aliases internal state, is a wrong view).
+    Magnitudes: 12x12, 16x16, 20x20, 2x70, 70x2, 3x90 (>= 128 / >= 256 cells, connections, adjacency-list entries),
+    Hamiltonian and longest-shortest solutions of 140..400 cells, candidate paths broken beyond index 127.
+
 Interpretation decisions (so that the oracle does not demand more than the statement):
   * orientation / order of as_adj_list entries and order of neighbour / component / node lists are free;
     "exactly once" = no connection twice, none missing, nothing that is not a connection.
@@ -211,9 +220,30 @@ def _vec_out(v, n=None):
     return out
 
 
-def observe_maze(conn, rng, small, job, parity=0):
+def _scribble(x):
+    """overwrite a value RETURNED by the library in place: a later call must not see this (no aliasing of
+    internal / cached state)"""
+    if isinstance(x, tuple):
+        for y in x:
+            _scribble(y)
+    elif isinstance(x, np.ndarray):
+        if x.size and x.flags.writeable:
+            try:
+                x[...] = ~x if x.dtype.kind == "b" else x + 3
+            except Exception:  # noqa: BLE001
+                pass
+    elif isinstance(x, list):
+        x.insert(0, 97)
+
+
+VIEWS = ["nodes", "deg", "nb", "nc", "comp", "paths", "adj", "isconn", "sols"]
+
+
+def observe_maze(conn, rng, small, job, parity=0, m=None, order=None, scribble=False, light=False, extra_sols=(), extra_paths=()):
     """every library call goes through call()/mz.outcome: an exception or a malformed output of the code under
-    test is an OUTCOME (listed in rec['err'], rejected by the oracle), never a harness failure"""
+    test is an OUTCOME (listed in rec['err'], rejected by the oracle), never a harness failure.
+    m = an existing maze object to query again (history); order = order of the views; scribble = overwrite every
+    returned array / list in place after logging it; light = fewer pairs / candidate paths."""
     from maze_dataset.token_utils import is_connection
     from maze_dataset.utils import lattice_connection_array
 
@@ -229,72 +259,132 @@ def observe_maze(conn, rng, small, job, parity=0):
             return default
         return v
 
+    def take(fn, conv):
+        raw = fn()
+        out = conv(raw)
+        if scribble:
+            _scribble(raw)
+        return out
+
     rec = dict(kind="maze", job=job, R=r, C=c, conn=mz.raw(conn), nodes=[], deg=[], nb=[], nc=[], comp=[], paths=[], adj=[], rt=[], isconn=[], sols=[], err=err)
-    m = call("LatticeMaze", lambda: mz.LatticeMaze(connection_list=conn))
+    if m is None:
+        m = call("LatticeMaze", lambda: mz.LatticeMaze(connection_list=conn))
     if m is None:
         return rec
-    rec["nodes"] = call("get_nodes", lambda: _cells_out(m.get_nodes()), [])
-    rec["deg"] = call("coord_degrees", lambda: _arr(m.coord_degrees(), 2), [])
-    rec["nb"] = [[list(a), call("get_coord_neighbors", lambda: _cells_out(m.get_coord_neighbors(np.array(a))), [])] for a in cs]
-    rec["nc"] = [[a[0], a[1], b[0], b[1], call("nodes_connected", lambda: int(bool(m.nodes_connected(np.array(a), np.array(b)))), 2)] for a, b in _pairs(rng, r, c)]
-    seeds = cs if r * c <= 16 else sorted({(0, 0), (0, c - 1), (r - 1, 0), (r - 1, c - 1)} | {cs[int(rng.integers(len(cs)))] for _ in range(5)})
-    rec["comp"] = [[list(a), call("gen_connected_component_from", lambda: _cells_out(m.gen_connected_component_from(np.array(a))), [])] for a in seeds]
-    paths = []
-    for i, p in enumerate(_candidate_paths(rng, conn, small)):
-        arr = np.array(p, dtype=int).reshape(-1, 2)
-        for eiv in ([False, True] if len(p) == 0 or i % 16 == 0 else [bool(i % 2)]):
-            res, v = mz.outcome(lambda: int(bool(m.is_valid_path(arr, empty_is_valid=eiv))))
-            paths.append([[_cl(x) for x in p], int(eiv), v if res == "ok" else 2])
-    # default call (no flags) of is_valid_path on the empty path
-    res, v = mz.outcome(lambda: int(bool(m.is_valid_path(np.zeros((0, 2), dtype=int)))))
-    paths.append([[], 0, v if res == "ok" else 2])
-    rec["paths"] = paths
-    adj, rt = [], []
-    for d0, d1 in FLAGS + [(None, None)]:  # None = the default flags (shuffled both ways)
-        np.random.seed(int(rng.integers(0, 2**31)))
-        a = call("as_adj_list", (lambda: m.as_adj_list()) if d0 is None else (lambda: m.as_adj_list(shuffle_d0=d0, shuffle_d1=d1)))
-        lst = call("as_adj_list", lambda: _arr(a, 3, (2, 2)), []) if a is not None else []
-        adj.append([int(d0 is None or d0), int(d0 is None or d1), lst])
-        if r == c and lst:
-            res, raw2 = mz.outcome(lambda: _arr(mz.LatticeMaze.from_adj_list(a).connection_list, 3))
-            rt.append([adj[-1][0], adj[-1][1], 1, raw2] if res == "ok" else [adj[-1][0], adj[-1][1], 0, []])
-    rec["adj"], rec["rt"] = adj, rt
-    edges = _lattice_edges(r, c)
-    batch = [(a, b) for a, b in edges] + [(b, a) for a, b in edges]
-    isconn = []
-    if batch:
-        order = rng.permutation(len(batch))
-        batch = [batch[int(i)] for i in order]
-        arr = np.array(batch, dtype=np.int8 if parity % 2 else np.int64)
-        res = call("is_connection", lambda: _vec_out(is_connection(arr, conn), len(batch)), [2] * len(batch))
-        isconn += [[_cl(a), _cl(b), int(x)] for (a, b), x in zip(batch, res)]
-        if r == c:  # the library's own edge generator as input, as given and with swapped endpoints
-            lca = call("lattice_connection_array", lambda: np.asarray(_arr(lattice_connection_array(r), 3, (2, 2))))
-            if lca is not None and len(lca):
-                for arr2 in (lca, lca[:, ::-1, :]):
-                    res = call("is_connection", lambda: _vec_out(is_connection(arr2.astype(np.int8), conn), len(arr2)), [2] * len(arr2))
-                    isconn += [[_cl(e[0]), _cl(e[1]), int(x)] for e, x in zip(arr2.tolist(), res)]
-    rec["isconn"] = isconn
-    sols = []
-    for p in _solutions(rng, conn, small):
-        def forks():
-            sm = mz.SolvedMaze(connection_list=conn, solution=np.array(p))
-            f = sm.get_solution_forking_points()
-            e = sm.get_solution_forking_points(always_include_endpoints=True)
-            g = sm.get_solution_path_following_points()
-            out = [[_cl(x) for x in p]]
-            for idx, co in (f, e, g):
-                out += [_vec_out(idx), _cells_out(co)]
-            return out
 
-        v = call("solution_forking_points", forks)
-        if v is not None:
-            sols.append(v)
-    rec["sols"] = sols
+    def v_nodes():
+        rec["nodes"] = call("get_nodes", lambda: take(m.get_nodes, _cells_out), [])
+
+    def v_deg():
+        rec["deg"] = call("coord_degrees", lambda: take(m.coord_degrees, lambda x: _arr(x, 2)), [])
+
+    def v_nb():
+        seq = cs if parity % 2 == 0 else cs[::-1]
+        rec["nb"] = [[list(a), call("get_coord_neighbors", lambda: take(lambda: m.get_coord_neighbors(np.array(a)), _cells_out), [])] for a in seq]
+
+    def v_nc():
+        prs = _pairs(rng, r, c)
+        if light and len(prs) > 400:
+            prs = prs[::3]
+        if parity % 2:
+            prs = prs[::-1]
+        rec["nc"] = [[a[0], a[1], b[0], b[1], call("nodes_connected", lambda: int(bool(m.nodes_connected(np.array(a), np.array(b)))), 2)] for a, b in prs]
+
+    def v_comp():
+        seeds = cs if r * c <= 16 else sorted({(0, 0), (0, c - 1), (r - 1, 0), (r - 1, c - 1)} | {cs[int(rng.integers(len(cs)))] for _ in range(5)})
+        if light:
+            seeds = seeds[:: max(1, len(seeds) // 4)]
+        rec["comp"] = [[list(a), call("gen_connected_component_from", lambda: take(lambda: m.gen_connected_component_from(np.array(a)), _cells_out), [])] for a in seeds]
+
+    def v_paths():
+        paths = []
+        cand = _candidate_paths(rng, conn, small)
+        if light:
+            cand = cand[::5]
+        cand = cand + [list(p) for p in extra_paths]
+        for i, p in enumerate(cand):
+            arr = np.array(p, dtype=int).reshape(-1, 2)
+            for eiv in ([False, True] if len(p) == 0 or i % 16 == 0 else [bool(i % 2)]):
+                res, v = mz.outcome(lambda: int(bool(m.is_valid_path(arr, empty_is_valid=eiv))))
+                paths.append([[_cl(x) for x in p], int(eiv), v if res == "ok" else 2])
+        # the empty path again: default call (no flag), then with / without the flag in the other order
+        res, v = mz.outcome(lambda: int(bool(m.is_valid_path(np.zeros((0, 2), dtype=int)))))
+        paths.append([[], 0, v if res == "ok" else 2])
+        for eiv in (True, False):
+            res, v = mz.outcome(lambda: int(bool(m.is_valid_path(np.zeros((0, 2), dtype=int), empty_is_valid=eiv))))
+            paths.append([[], int(eiv), v if res == "ok" else 2])
+        rec["paths"] = paths
+
+    def v_adj():
+        adj, rt = [], []
+        flags = FLAGS + [(None, None)]  # None = the default flags (shuffled both ways)
+        for d0, d1 in flags if parity % 2 == 0 else flags[::-1]:
+            np.random.seed(int(rng.integers(0, 2**31)))
+            a = call("as_adj_list", (lambda: m.as_adj_list()) if d0 is None else (lambda: m.as_adj_list(shuffle_d0=d0, shuffle_d1=d1)))
+            lst = call("as_adj_list", lambda: _arr(a, 3, (2, 2)), []) if a is not None else []
+            adj.append([int(d0 is None or d0), int(d0 is None or d1), lst])
+            if r == c and lst:
+                res, raw2 = mz.outcome(lambda: take(lambda: mz.LatticeMaze.from_adj_list(a).connection_list, lambda x: _arr(x, 3)))
+                rt.append([adj[-1][0], adj[-1][1], 1, raw2] if res == "ok" else [adj[-1][0], adj[-1][1], 0, []])
+            if scribble and a is not None:
+                _scribble(a)
+        rec["adj"], rec["rt"] = adj, rt
+
+    def v_isconn():
+        edges = _lattice_edges(r, c)
+        batch = [(a, b) for a, b in edges] + [(b, a) for a, b in edges]
+        isconn = []
+        if batch:
+            order_ = rng.permutation(len(batch))
+            batch = [batch[int(i)] for i in order_]
+            arr = np.array(batch, dtype=np.int8 if parity % 2 else np.int64)
+            res = call("is_connection", lambda: take(lambda: is_connection(arr, conn), lambda x: _vec_out(x, len(batch))), [2] * len(batch))
+            isconn += [[_cl(a), _cl(b), int(x)] for (a, b), x in zip(batch, res)]
+            if r == c:  # the library's own edge generator as input, as given and with swapped endpoints
+                lca = call("lattice_connection_array", lambda: lattice_connection_array(r))
+                lst = call("lattice_connection_array", lambda: np.asarray(_arr(lca, 3, (2, 2)))) if lca is not None else None
+                if scribble and lca is not None:
+                    _scribble(lca)
+                if lst is not None and len(lst):
+                    for arr2 in (lst, lst[:, ::-1, :]):
+                        res = call("is_connection", lambda: take(lambda: is_connection(arr2.astype(np.int8), conn), lambda x: _vec_out(x, len(arr2))), [2] * len(arr2))
+                        isconn += [[_cl(e[0]), _cl(e[1]), int(x)] for e, x in zip(arr2.tolist(), res)]
+        rec["isconn"] = isconn
+
+    def v_sols():
+        sols = []
+        cand = _solutions(rng, conn, small)
+        if light and len(cand) > 12:
+            cand = cand[:: len(cand) // 12]
+        for i, p in enumerate(cand + [list(p) for p in extra_sols]):
+            def forks():
+                # the three queries on ONE SolvedMaze object, in an order that depends on the solution
+                sm = mz.SolvedMaze(connection_list=conn, solution=np.array(p))
+                q = dict(
+                    f=lambda: sm.get_solution_forking_points(),
+                    e=lambda: sm.get_solution_forking_points(always_include_endpoints=True),
+                    g=lambda: sm.get_solution_path_following_points(),
+                )
+                got = {}
+                for key in [("f", "e", "g"), ("e", "g", "f"), ("f", "g", "e", "f"), ("g", "e", "f", "e")][(i + parity) % 4]:
+                    raw = q[key]()
+                    got[key] = [_vec_out(raw[0]), _cells_out(raw[1])]
+                    if scribble or i % 2:
+                        _scribble(raw)
+                return [[_cl(x) for x in p]] + got["f"] + got["e"] + got["g"]
+
+            v = call("solution_forking_points", forks)
+            if v is not None:
+                sols.append(v)
+        rec["sols"] = sols
+
+    fns = dict(nodes=v_nodes, deg=v_deg, nb=v_nb, nc=v_nc, comp=v_comp, paths=v_paths, adj=v_adj, isconn=v_isconn, sols=v_sols)
+    for name in order or VIEWS:
+        fns[name]()
     return rec
 
 
-def observe_lattice(n, seed):
+def observe_lattice(n, seed, scribble=False, job=None):
     from maze_dataset.utils import lattice_connection_array, lattice_max_degrees, manhattan_distance
 
     rng = np.random.default_rng([seed, 3, n])
@@ -308,19 +398,126 @@ def observe_lattice(n, seed):
             return default
         return v
 
-    lca = call("lattice_connection_array", lambda: _arr(lattice_connection_array(n), 3, (2, 2)), [])
-    md = call("manhattan_distance", lambda: _vec_out(manhattan_distance(np.array(lca, dtype=np.int8)), len(lca)), []) if lca else []
+    def take(fn, conv):
+        raw = fn()
+        out = conv(raw)
+        if scribble:
+            _scribble(raw)
+        return out
+
+    lca = call("lattice_connection_array", lambda: take(lambda: lattice_connection_array(n), lambda x: _arr(x, 3, (2, 2))), [])
+    md = call("manhattan_distance", lambda: take(lambda: manhattan_distance(np.array(lca, dtype=np.int8)), lambda x: _vec_out(x, len(lca))), []) if lca else []
     cs = mz.cells(n, n)
     pairs = [(a, b) for a in cs for b in cs] if n <= 3 else [(cs[int(rng.integers(len(cs)))], cs[int(rng.integers(len(cs)))]) for _ in range(60)] + [((0, 0), (n - 1, n - 1)), ((n - 1, 0), (0, n - 1))]
     md2 = [[list(a), list(b), call("manhattan_distance", lambda: int(manhattan_distance(np.array([a, b], dtype=np.int8 if i % 2 else np.int64))), -1)] for i, (a, b) in enumerate(pairs)]
-    batch = call("manhattan_distance", lambda: _vec_out(manhattan_distance(np.array(pairs)), len(pairs)), [-1] * len(pairs))
+    batch = call("manhattan_distance", lambda: take(lambda: manhattan_distance(np.array(pairs)), lambda x: _vec_out(x, len(pairs))), [-1] * len(pairs))
     md2 += [[list(a), list(b), int(x)] for (a, b), x in zip(pairs, batch)]
-    maxdeg = call("lattice_max_degrees", lambda: _arr(lattice_max_degrees(n), 2), [])
-    return dict(kind="lattice", job=["lat", n, seed], n=n, lca=lca, md=md, md2=md2, maxdeg=maxdeg, err=err)
+    maxdeg = call("lattice_max_degrees", lambda: take(lambda: lattice_max_degrees(n), lambda x: _arr(x, 2)), [])
+    return dict(kind="lattice", job=job or ["lat", n, seed], n=n, lca=lca, md=md, md2=md2, maxdeg=maxdeg, err=err)
+
+
+# ---- histories (class A): one process, same objects queried repeatedly, shapes in decreasing / scrambled order
+HIST_SHAPES = [
+    [(5, 5), (5, 3), (3, 5), (3, 3), (3, 2), (2, 3), (2, 2), (1, 2)],  # decreasing
+    [(3, 2), (3, 5), (2, 3), (5, 3), (3, 2), (3, 3), (3, 3), (2, 3), (1, 3), (4, 3)],  # scrambled: same rows then wider, same cols then taller
+    [(4, 4), (4, 4), (4, 4), (2, 4), (4, 2), (2, 4), (4, 1), (4, 4)],  # A-B-A on one shape (3rd = 1st graph again, new object)
+    [(1, 2), (2, 2), (2, 3), (3, 3), (3, 5), (5, 5), (6, 5), (5, 6)],  # increasing
+]
+HIST_LATTICE = [[6, 3, 6, 2, 5, 3, 1, 6], [2, 3, 2, 7, 3, 7], [9, 8, 4, 8, 9, 4], [1, 2, 3, 4, 4, 3]]
+
+
+def _use(m, conn):
+    """legitimate uses of a maze between two observations (results not judged here)"""
+    mz.outcome(lambda: hash(m))
+    mz.outcome(lambda: m == mz.LatticeMaze(connection_list=conn.copy()))
+    mz.outcome(lambda: m.as_ascii())
+    mz.outcome(lambda: m.as_pixels())
+    mz.outcome(lambda: m.find_shortest_path((0, 0), tuple(int(x) - 1 for x in conn.shape[1:])))
+
+
+def observe_hist(seed, k):
+    rng = np.random.default_rng([seed, 4, k])
+    job = ["hist", seed, k]
+    out = []
+    first = {}
+    for step, (r, c) in enumerate(HIST_SHAPES[k % len(HIST_SHAPES)]):
+        if k % len(HIST_SHAPES) == 2 and step == 2:
+            conn = first[(r, c)].copy()
+        else:
+            conn = mz.rand_conn(rng, r, c, float(rng.choice([0.35, 0.5, 0.65, 0.8])))
+        first.setdefault((r, c), conn)
+        small = r * c <= 9
+        m = mz.outcome(lambda: mz.LatticeMaze(connection_list=conn))[1]
+        orders = [VIEWS, VIEWS[::-1], [VIEWS[int(i)] for i in rng.permutation(len(VIEWS))]]
+        for ps, order in enumerate(orders):
+            # passes 1 and 2 overwrite everything they were given; pass 3 is a plain re-query after "using" the maze
+            rec = observe_maze(conn, rng, small, job, parity=ps + step, m=m, order=order, scribble=ps < 2, light=True)
+            rec["step"] = [step, ps]
+            out.append(rec)
+            if ps == 1 and m is not None:
+                _use(m, conn)
+        # a freshly built equal maze must look the same as the much-queried one
+        rec = observe_maze(conn.copy(), rng, small, job, parity=step, light=True)
+        rec["step"] = [step, 3]
+        out.append(rec)
+    for step, n in enumerate(HIST_LATTICE[k % len(HIST_LATTICE)]):
+        rec = observe_lattice(n, seed, scribble=True, job=job)
+        rec["step"] = [step, 9]
+        out.append(rec)
+    return out
+
+
+# ---- magnitude boundaries (class B): >= 128 / >= 256 cells, connections, solution cells; one long side
+BIG = [(12, 12, "serp"), (16, 16, "serp"), (2, 70, "serp"), (70, 2, "serp"), (16, 16, "dfs"), (20, 20, "dfs"), (12, 12, "full"), (16, 16, "perc"), (20, 20, "serp"), (3, 90, "dfs")]
+
+
+def _serpentine(r, c):
+    """one Hamiltonian path: rows joined left-right, consecutive rows joined at alternating ends"""
+    conn = np.zeros((2, r, c), dtype=bool)
+    conn[1, :, : c - 1] = True
+    path = []
+    for i in range(r):
+        row = [(i, j) for j in range(c)]
+        path += row if i % 2 == 0 else row[::-1]
+        if i < r - 1:
+            conn[0, i, c - 1 if i % 2 == 0 else 0] = True
+    return conn, path
+
+
+def observe_big(seed, i):
+    r, c, kind = BIG[i % len(BIG)]
+    rng = np.random.default_rng([seed, 5, i])
+    if kind == "serp":
+        conn, ham = _serpentine(r, c)
+        sols = [ham, ham[::-1], ham[3:140], ham[: r * c - 1]]
+    else:
+        try:
+            conn = np.asarray(_gen_conn(rng, kind, r, c), dtype=bool)
+        except Exception:  # noqa: BLE001
+            conn = mz.rand_conn(rng, r, c, 0.6)
+        sols = []
+    # the longest shortest path from a corner, and a long self-avoiding walk
+    d = mz.bfs(conn, (0, 0))
+    far = max(d, key=lambda x: (d[x], x))
+    sols.append(_bfs_path(conn, (0, 0), far))
+    sols.append(max((_rand_walk(rng, conn, (int(rng.integers(r)), int(rng.integers(c))), 400, simple=True) for _ in range(6)), key=len))
+    paths = list(sols)
+    for p in sols[:3]:
+        if len(p) > 130:  # broken / out of bounds far beyond index 127
+            q = list(p)
+            q[129] = q[5]
+            paths.append(q)
+            q = list(p)
+            q[-1] = (r, q[-1][1])
+            paths.append(q)
+    rec = observe_maze(conn, rng, False, ["big", seed, i], parity=i, extra_sols=sols, extra_paths=paths)
+    rec["gen"] = kind
+    return rec
 
 
 def observe(job):
-    """job = ["g", r, c, n, seed] | ["rand", seed, k, maxn] | ["lat", n, seed] -> one record"""
+    """job = ["g", r, c, n, seed] | ["rand", seed, k, maxn] | ["lat", n, seed] | ["big", seed, i] -> one record;
+    ["hist", seed, k] -> list of records (one process, one history)"""
     if job[0] == "g":
         _, r, c, n, seed = job
         return observe_maze(mz.conn_from_int(r, c, n), np.random.default_rng([seed, 1, r, c, n]), True, list(job), n)
@@ -330,6 +527,10 @@ def observe(job):
         rec = observe_maze(conn, rng, r * c <= 9, list(job), k)
         rec["gen"] = kind
         return rec
+    if job[0] == "hist":
+        return observe_hist(job[1], job[2])
+    if job[0] == "big":
+        return observe_big(job[1], job[2])
     return observe_lattice(job[1], job[2])
 
 
@@ -494,7 +695,10 @@ def main(chk: lib.Check) -> int:
         "broken / out of bounds / empty with both flags), as_adj_list under all 4 shuffle flag combinations + defaults, from_adj_list of each, "
         "is_connection on all lattice edges in both orientations, forks on all shortest solutions of all ordered pairs (small) or BFS + "
         "self-avoiding solutions (large)); exhaustive over all graphs of the listed small shapes, seeded random graphs (percolation, dfs, "
-        "dfs+percolation, partial dfs, full) up to 15x15 incl. oblong and 1xn; non-trivial = at least one connection and one wall"
+        "dfs+percolation, partial dfs, full) up to 15x15 incl. oblong and 1xn; histories: one maze object queried 3x in forward / reversed / "
+        "scrambled view order with all returned arrays overwritten in between + a fresh equal maze, shapes in decreasing / scrambled / A-B-A / "
+        "increasing order in one process; magnitudes: 12x12..20x20, 2x70, 70x2, 3x90 with solutions of 140..400 cells; "
+        "non-trivial = at least one connection and one wall"
     )
     # ---- (A) design-level model checking, started in the background while the real code is observed
     ex = cf.ThreadPoolExecutor(max_workers=3)
@@ -518,7 +722,13 @@ def main(chk: lib.Check) -> int:
     nrand = 3000 if thorough else 320
     jobs += [["rand", chk.seed, k, 15] for k in range(nrand)]
     jobs += [["lat", n, chk.seed] for n in range(1, 16)]
-    recs = lib.pmap(observe, jobs, chunksize=4)
+    # class A: histories (same object re-queried in other orders after its outputs were overwritten, shapes in decreasing /
+    # scrambled / A-B-A order within one process); class B: >= 128 / >= 256 cells, connections, solution cells
+    jobs += [["hist", chk.seed, k] for k in range(48 if thorough else 12)]
+    jobs += [["big", chk.seed, i] for i in range(2 * len(BIG) if thorough else len(BIG))]
+    recs = []
+    for x in lib.pmap(observe, jobs, chunksize=4):
+        recs += x if isinstance(x, list) else [x]
     for i, x in enumerate(recs):
         x["id"] = i
     res = lib.oracle("Trace_Views", recs, tag="maze")
@@ -542,6 +752,8 @@ def main(chk: lib.Check) -> int:
             tot["oblong"] += x["R"] != x["C"]
             tot["max_cells"] = max(tot["max_cells"], x["R"] * x["C"])
     chk.notes["view_evaluations"] = tot
+    chk.notes["history_records"] = sum(1 for x in recs if x["job"][0] == "hist")
+    chk.notes["magnitude_cases"] = [[x["R"], x["C"], x.get("gen"), max(len(s[0]) for s in x["sols"])] for x in recs if x["job"][0] == "big"]
     small_rec = next(x for x in recs if x["kind"] == "maze" and x["R"] == 2 and x["C"] == 2 and _nontrivial(x))
     chk.sample({k: small_rec[k] for k in ("R", "C", "conn", "nodes", "deg", "nb", "comp", "adj", "rt", "isconn")} | {"sols": small_rec["sols"][:3], "paths": small_rec["paths"][:5]})
     big = next(x for x in recs if x["job"][0] == "rand" and x["R"] * x["C"] > 9)
@@ -580,12 +792,13 @@ def main(chk: lib.Check) -> int:
 def replay(path: str) -> int:
     d = json.load(open(path))
     job = d["case"]["job"]
-    rec = observe(job)
-    rec["id"] = 0
-    out = lib.oracle("Trace_Views", [rec], tag="rp")
-    got = out.verdicts.get(0, [])
-    print("replay:", job, "verdict:", got)
-    if got:
+    recs = observe(job)
+    recs = recs if isinstance(recs, list) else [recs]
+    for i, x in enumerate(recs):
+        x["id"] = i
+    out = lib.oracle("Trace_Views", recs, tag="rp", shards=1)
+    print("replay:", job, "verdicts:", out.verdicts)
+    if out.verdicts:
         print(f"VIOLATION property=C13 replay={path}")
         return 1
     return 0
